@@ -413,6 +413,10 @@ class Fn:
             head = pad + "Py.whileLoop %s %s (fun %s => do" % (self.cfg["while_fuel"], tup, "_" if not vs else tup)
         ls = [head] + body
         ls[-1] += ")"
+        if kind == "while":
+            if any(not self.is_skipped(r_) for r_ in rest):
+                raise Unsupported("statements after `while True`")
+            return ls + [pad + "  (fun %s => %s)" % ("_" if not vs else tup, self.cfg["while_default"])]
         ls += [pad + "  (fun %s => do" % ("_" if not vs else tup)] + self.S(rest, ind + 2, end, live_after)
         ls[-1] += ")"
         return ls
@@ -577,11 +581,18 @@ FUNCS.append(
                       "suffixV4 := {M}, suffixV6 := {N} }})")]))
 
 FUNCS.append(
+    dict(module="netconan/sensitive_item_removal.py", qual="_extract_enclosing_text", name="extract_enclosing_text",
+         sig="(fuel : Nat) (in_val head tail : List Char) : List Char × List Char × List Char", run="Id.run ", add="++",
+         while_fuel="fuel", while_default="pure (head, in_val, tail)",
+         expr_rules=[("_PASSWORD_ENCLOSING_HEAD_TEXT", "Generated.headText"), ("_PASSWORD_ENCLOSING_TAIL_TEXT", "Generated.tailText"),
+                     ("A.startswith(B)", "Secrets.startsWith {A} {B}"), ("A.endswith(B)", "Secrets.endsWith {A} {B}"),
+                     ("A[len(B):]", "List.drop (List.length {B}) {A}"), ("A[:-len(B)]", "List.take (List.length {A} - List.length {B}) {A}")]))
+FUNCS.append(
     dict(module="netconan/sensitive_item_removal.py", qual="_anonymize_value", name="anonymize_value",
          sig="(x : Secrets.Ext) (fs : List Regex.Re) (raw_val : List Char) (salt : List Char) : Py.L (List Char)",
          add="++", truthiness=True, raise_="Py.lraise Err.{}", optional_vars=("decrypted",), try_value="Py.tryValue ({0}) {1}",
          skip_stmts=["logging.debug(A)", "logging.debug(A, B)", "logging.debug(A, B, C)"],
-         expr_rules=[("_extract_enclosing_text(A)", "Secrets.extractEnclosing (List.length {A} + 1) {A} [] []"),
+         expr_rules=[("_extract_enclosing_text(A)", "extract_enclosing_text (List.length {A} + 1) {A} [] []"),
                      ("val in reserved_words", "x.isReserved val"),
                      ("A.startswith(juniper_secrets.MAGIC)", "Secrets.startsWith {A} Generated.junMagic"),
                      ("juniper_secrets.juniper_decrypt(A)", "Juniper.decrypt {A}"),
@@ -621,7 +632,7 @@ GROUPS = {
                   serves=["C01", "C02", "C03", "C04", "C05", "C17"],
                   funcs=["is_mask", "anonymize_bits", "deanonymize_bits", "anonymize", "deanonymize", "seed_loop", "anonymize_match"]),
     "SrcSecrets": dict(imports=["Netconan.Model.PySecrets"], serves=["C07", "C08", "C09"],
-                       funcs=["check_sensitive_item_format", "anonymize_value"]),
+                       funcs=["check_sensitive_item_format", "extract_enclosing_text", "anonymize_value"]),
     "SrcAs": dict(imports=["Netconan.Model.Py", "Netconan.Model.Words"], serves=["C11"],
                   funcs=["generate_as_number_replacement"]),
     "SrcLines": dict(imports=["Netconan.Model.Py", "Netconan.Model.Lines"], serves=["C12", "C13", "C14", "C15"], funcs=["line_step"]),
